@@ -271,6 +271,9 @@ func main() {
 	} else {
 		c.Budget(20 * time.Minute)
 	}
+	if b, err := time.ParseDuration(os.Getenv("C14_BUDGET")); err == nil && b > 0 { // measuring aid
+		c.Budget(b)
+	}
 	scratch := probe.ScratchRoot()
 	defer probe.Cleanup()
 	overlay := instrumentSafeAdd(scratch)
@@ -287,14 +290,14 @@ func main() {
 	// the generated operations with index % shards == shard: the generated executor spawns a
 	// goroutine per concurrent field, and cross-thread goroutine hand-offs dominated the run time
 	// when one process used many threads.
-	type plan struct{ n, fullGate, httpMax, shards int }
+	type plan struct{ n, fullGate, httpMax, histMax, shards int }
 	cpus := runtime.NumCPU()
-	plans := []plan{{4, 3, 4, max(1, cpus/2)}, {4, 3, 4, max(1, cpus/2)}}
+	plans := []plan{{4, 3, 4, 4, max(1, cpus/2)}, {4, 3, 4, 4, max(1, cpus/2)}}
 	if !quick {
 		// the layouts differ only in the template that emits Complexity() (generated!.gotpl vs
 		// root_.gotpl); every "Type.field" case of the alphabet is already reached at 4 nodes, so
 		// the deeper enumeration is spent on one layout
-		plans = []plan{{5, 4, 5, max(1, cpus-max(1, cpus/8))}, {4, 4, 4, max(1, cpus/8)}}
+		plans = []plan{{5, 4, 5, 5, max(1, cpus-max(1, cpus/8))}, {4, 4, 4, 4, max(1, cpus/8)}}
 	}
 
 	results := make([]*result, len(layouts))
@@ -315,7 +318,7 @@ func main() {
 				go func(sh int) {
 					defer sw.Done()
 					parts[sh] = runHarness(bin, sh, "-layout", l.name, "-tier", c.Tier, "-n", fmt.Sprint(pl.n), "-fullgate", fmt.Sprint(pl.fullGate),
-						"-http", fmt.Sprint(pl.httpMax), "-budget", fmt.Sprint(budget), "-shard", fmt.Sprint(sh), "-shards", fmt.Sprint(pl.shards))
+						"-http", fmt.Sprint(pl.httpMax), "-hist", fmt.Sprint(pl.histMax), "-budget", fmt.Sprint(budget), "-shard", fmt.Sprint(sh), "-shards", fmt.Sprint(pl.shards))
 				}(sh)
 			}
 			sw.Wait()
@@ -364,7 +367,7 @@ func main() {
 		broken("layouts explored different spaces: %d vs %d", results[0].Counts["op_x_assignment"], results[1].Counts["op_x_assignment"])
 	}
 
-	evals := total["calculate_calls"] + total["gate_runs"] + total["http_runs"] + total["named_operation_runs"] + total["safeadd_cells"]
+	evals := total["calculate_calls"] + total["gate_runs"] + total["http_runs"] + total["history_requests"] + total["safeadd_cells"]
 	c.Cov["evaluations"] = evals
 	c.Cov["distinct_nontrivial"] = results[0].Counts["distinct_nontrivial"]
 	c.Cov["rule"] = "distinct (operation, custom-complexity assignment) pairs (per layout; identical in both) whose reference value takes at least one custom function's value or a maximum over implementors with differing costs, i.e. is not the plain node count"
@@ -374,14 +377,14 @@ func main() {
 	c.Cov["omit_complexity_variant"] = omitOut
 	c.Cov["safeadd_grid"] = "12x12 = 144 cells over {minInt, minInt+1, -2, -1, 0, 1, 2, maxInt/2, maxInt/2+1, maxInt-2, maxInt-1, maxInt}; both operands >= 0 (64 cells): exact saturating sum from math/big; one negative (64): the other operand; both negative (16): documentation does not define the value, only a non-negative result is required (the code returns 1)"
 	c.Cov["bounds"] = map[string]any{
-		"max_selection_nodes":    map[string]int{"single-file": plans[0].n, "follow-schema": plans[1].n},
-		"grammar":                "ordered selection sets over Query{str,z:str,arg[6 argument forms],t,targ[3 argument forms],node,u,__typename} Mutation{m1,m3} T{id,z:id,name,kid,peer,u,__typename} S{id,peer} Node{id,__typename} Named{name} Deep{peer} U{__typename}; inline fragments without / with type condition in {T,S,Node,Named,Deep,U} (where the types overlap); named fragment definition+spread on the same conditions; re-use of any fragment of the document; argument forms of Query.arg (leaf, default x=7): none, x:3, x:$v, x:2 y:[p,q], x:-4, x:null; of Query.targ (composite, added by this check as `extend type Query { targ(x: Int = 6): T }`, default x=6): none, x:3, x:$v; variable modes for $v: given 2, variable default 4, absent, null",
-		"assignments":            "custom functions on <= 2 of the Object.field pairs the operation touches (for interface selections: every implementing object), each from {const 0, 1, 5, -3, maxInt, maxInt-1, child*2 saturating, child+x+10*len(y) (= child on fields without arguments)}; plus one assignment per operation putting maxInt on every field the operation does not touch",
-		"limits":                 "{0, 1, c-1, c, c+1, maxInt} (de-duplicated, c = reference complexity)",
-		"executor_gate":          fmt.Sprintf("every limit x every assignment for operations with <= %d nodes (layout single-file) / <= %d nodes (layout follow-schema); for larger operations every limit x the first assignment reaching each distinct reference value", plans[0].fullGate, plans[1].fullGate),
-		"http":                   fmt.Sprintf("operations with <= %d nodes, no custom function, limits {c-1, c} through handler.Server + transport.POST (httptest recorder)", plans[0].httpMax),
-		"two_operation_document": "operations with <= 2 nodes next to a more expensive decoy operation, selected by operationName, both orders",
-		"layouts":                []string{"single-file", "follow-schema"},
+		"max_selection_nodes": map[string]int{"single-file": plans[0].n, "follow-schema": plans[1].n},
+		"grammar":             "ordered selection sets over Query{str,z:str,arg[6 argument forms],t,targ[3 argument forms],node,u,__typename} Mutation{m1,m3} T{id,z:id,name,kid,peer,u,__typename} S{id,peer} Node{id,__typename} Named{name} Deep{peer} U{__typename}; inline fragments without / with type condition in {T,S,Node,Named,Deep,U} (where the types overlap); named fragment definition+spread on the same conditions; re-use of any fragment of the document; argument forms of Query.arg (leaf, default x=7): none, x:3, x:$v, x:2 y:[p,q], x:-4, x:null; of Query.targ (composite, added by this check as `extend type Query { targ(x: Int = 6): T }`, default x=6): none, x:3, x:$v; variable modes for $v: given 2, variable default 4, absent, null",
+		"assignments":         "custom functions on <= 2 of the Object.field pairs the operation touches (for interface selections: every implementing object), each from {const 0, 1, 5, -3, maxInt, maxInt-1, child*2 saturating, child+x+10*len(y) (= child on fields without arguments)}; plus one assignment per operation putting maxInt on every field the operation does not touch",
+		"limits":              "{0, 1, c-1, c, c+1, maxInt} (de-duplicated, c = reference complexity)",
+		"executor_gate":       fmt.Sprintf("every limit x every assignment for operations with <= %d nodes (layout single-file) / <= %d nodes (layout follow-schema); for larger operations every limit x the first assignment reaching each distinct reference value", plans[0].fullGate, plans[1].fullGate),
+		"http":                fmt.Sprintf("operations with <= %d nodes, no custom function, limits {c-1, c} through handler.Server + transport.POST (httptest recorder)", plans[0].httpMax),
+		"histories":           "request sequences through ONE long-lived executor with an LRU query-document cache and one extension instance (fresh per history), each request judged by the single-request oracle: (a) variable family - operations using $v with header ($v: Int): variants v=2, v=9, absent, null share the query text; for every ordered pair the triple a>b>a at limit min(ca,cb) and the pair a>b at max(ca,cb), FixedComplexityLimit, for the assignments where the variants' reference values can differ (child+x+10*len(y) on Query.arg and/or Query.targ; for operations within the full-gate size also combined with any one other deviating field) and for no custom function; (b) limit family - every (operation, assignment) that gets the executor gate: the same request at per-request limits c > c-1 > c through ComplexityLimit{Func} (limit taken from a request header); (c) operationName family - operations with <= 2 nodes in a document next to a more expensive Decoy operation (both document orders): [Main], [Decoy>Main], [Main>Decoy], [Main>Decoy>Main] at limits {c-1, c, c(Decoy)}, FixedComplexityLimit",
+		"layouts":             []string{"single-file", "follow-schema"},
 	}
 	c.Assume = []string{
 		"Reference written from the property statement and docs/content/reference/complexity.md; complexity.go consulted for the following ambiguities only.",
@@ -393,6 +396,7 @@ func main() {
 		"Saturation: every intermediate sum is min(exact, maxInt); the custom functions of the alphabet saturate themselves (they are the user's code, not gqlgen's).",
 		"'Rejected' means: an error with extensions.code = COMPLEXITY_LIMIT_EXCEEDED, null/absent data and an empty resolver log. The HTTP status is not asserted (the extension's doc comment says 422, the code and gqlgen's own tests say 200). 'Not rejected' means: data, number of errors and resolver log equal those of a run without the extension.",
 		"safeAdd is observed through an export shim added by go build -overlay; one statement is inserted at the top of safeAdd (go/ast rewrite of the current source) to count calls with a negative operand coming from the walker: the count must be 0, so only the non-negative quadrant of the grid is reachable from Calculate.",
+		"A history starts from a freshly constructed executor/extension/cache; the reference is stateless, so every request of a history has the same expected outcome as if it were sent alone.",
 		"Stub resolvers return non-null values so that nested resolvers run; resolver errors, subscriptions and websocket transport are not part of this check.",
 	}
 	if os.Getenv("C14_KEEP") == "" { // debugging aid: keep the scratch modules and shard results
